@@ -53,6 +53,8 @@ fn variants(file: usize) -> Vec<&'static str> {
             "let v = { 'name str\n",
             "let v = { 'name str };\r\nlet v = num;\r\n",
             "use \"lib/b.oal\";\nlet v = { 'name w };\n",
+            // an import that cannot be found, in a module that is not the main one, behind multi-byte text
+            "// é😉 préfixe — €\nuse \"lib/nowhere.oal\";\nlet v = { 'name str };\n",
         ],
         2 => vec![
             "let w = num;\n",
@@ -60,6 +62,8 @@ fn variants(file: usize) -> Vec<&'static str> {
             "let w = <> ~ num;\n",
             "let w = ;\n",
             "\u{feff}let w = num;\n",
+            // imports its importer: a cycle whenever a.oal imports lib/b.oal
+            "/* 😉 */ use \"../a.oal\" as back;\nlet w = num;\n",
         ],
         _ => vec![
             "let u = str;\n",
